@@ -64,6 +64,30 @@ class SegsRenderable:
         yield from self.segs
 
 
+class Tee:
+    """passes the rendering of `inner` through unchanged and remembers the segments (the print model's input)"""
+
+    def __init__(self, inner):
+        self.inner = inner
+        self.seen = []
+
+    def __rich_console__(self, console, options):
+        segs = list(console.render(self.inner, options))
+        self.seen = [(sg.text, sg.style, bool(sg.is_control)) for sg in segs]
+        yield from segs
+
+
+class _Placeholder:
+    """stands for a Style object allocated inside Segment.apply_style: it keeps the handles aligned with the model's heap"""
+
+    def __bool__(self):
+        return False
+
+
+PLACEHOLDER = _Placeholder()
+PLAIN_NONE = (0, ("d",), ("d",), None)
+
+
 class TtyIO(io.StringIO):
     """a text file that says whether it is a terminal"""
 
@@ -205,6 +229,8 @@ class History:
         self.ops = []
         self.readable = []
         self.chars, self.toks, self.cells, self.expected = [], [], [], []
+        self.pbuf = []          # per writing op: what print appended to _buffer (`-` for the other writing ops)
+        self.has_print = False
         self.modelled = True
         self.tok_ok = True      # every written text so far was free of ESC: the token views are meaningful
         self.dead = False       # an exception ended the history
@@ -343,6 +369,7 @@ class History:
             self.consoles.drop(cfg, route)
         ctx.note("mode%d" % mode)
         ctx.note("route%d" % route)
+        self.pbuf.append("-")
         self.ops.append("R@%s@%s" % (A.enc_cfg(*cfg), A.enc_segs(segs)))
         self.readable.append("console%s(cs=%s,no_color=%d,terminal=%d,legacy=%d).%s" % (tag,
             CS_NAMES[cs], nc, t, lw, action[0] if action is not None else "write(%s)" % ", ".join(
@@ -411,6 +438,7 @@ class History:
             if isinstance(e, (KeyboardInterrupt, SystemExit)):
                 raise
             out = e
+        self.pbuf.append("-")
         self.ops.append("S@%d@%d@%s@%s" % (i, cs, enc_bool(lw), enc_str(text)))
         self.readable.append("s%d.render(%r, color_system=%s, legacy_windows=%s)" % (i, text, CS_NAMES[cs], bool(lw)))
         look = A.expected_look(style, cs, False, lw)
@@ -432,6 +460,116 @@ class History:
         if cs != 0 and text and self.first_cs[i] is None:
             self.first_cs[i] = cs
 
+
+    # ---------------------------------------------------------------- console.print as a modelled op (Model/AnsiPrint.lean)
+    def print_call(self, console, cfg, width, csoft, renderable, style_h, crop, soft, what):
+        """`console.print(renderable, style=objs[style_h], crop=crop, soft_wrap=soft)` on a real console of configuration
+        `cfg`, width `width`, `soft_wrap=csoft`.  The segments `Console.render` yields for the renderable are observed by
+        a pass-through wrapper (they are the model's input); everything after them is modelled: apply_style on the shared
+        objects, the crop, `_buffer`, `_render_buffer`, the write.  Compared: the buffer (values), the characters, tokens,
+        cells; evaluated: the statement on the real output with an oracle that knows neither Style.__add__ nor
+        split_and_crop_lines."""
+        from rich.style import Style
+
+        if self.dead:
+            return
+        ctx = self.ctx
+        cs, nc, t, lw = cfg
+        tee = Tee(renderable)
+        kw = {}
+        if style_h is not None:
+            kw["style"] = self.objs[style_h]
+        if crop is not None:
+            kw["crop"] = bool(crop)
+        if soft is not None:
+            kw["soft_wrap"] = bool(soft)
+        buf = None
+        try:
+            with console:
+                console.print(tee, **kw)
+                buf = [(sg.text, sg.style, bool(sg.is_control)) for sg in console._buffer]
+            out = console.file.getvalue()
+            if not isinstance(out, str):
+                out = TypeError("output is %s" % type(out).__name__)
+        except BaseException as e:  # noqa: BLE001 - an exception is an observation
+            if isinstance(e, (KeyboardInterrupt, SystemExit)):
+                raise
+            out = e
+        rendered = tee.seen
+        # the model's input: rendered segments over heap handles (objects not seen before get an `N@` op first)
+        segs = []
+        for text, st, control in rendered:
+            segs.append((text, None if st is None else self.handle(st, "rendered"), control))
+        if not self.modelled:
+            self.dead = True
+            return
+        S = None if style_h is None else self.objs[style_h]
+        self.ops.append("P@%s@%d@%d@%s@%d@%s@%s" % (A.enc_cfg(*cfg), width, int(bool(csoft)), "-" if style_h is None else style_h,
+                                                   1 if crop is None else int(bool(crop)), "-" if soft is None else int(bool(soft)), A.enc_segs(segs)))
+        self.readable.append("console(cs=%s,no_color=%d,terminal=%d,legacy=%d,width=%d,soft_wrap=%s).print(%s%s)" % (
+            CS_NAMES[cs], nc, t, lw, width, bool(csoft), what, "".join(", %s=%s" % (k, "s%d" % style_h if k == "style" else v) for k, v in kw.items())))
+        self.has_print = True
+        # index alignment: apply_style allocates one object per non-control segment whose own style is truthy, when S is truthy
+        if S is not None and bool(S):
+            for text, st, control in rendered:
+                if not control and st is not None and bool(st):
+                    self.objs.append(PLACEHOLDER)
+                    self.first_cs.append(None)
+        ctx.note("print-kind:" + what.split("(")[0])
+        ctx.note("print-crop" if ((1 if crop is None else crop) and not (csoft if soft is None else soft)) else "print-nocrop")
+        # ---- oracle: combined style by the public attributes, crop by crop_spec (ASCII only)
+        def combined(own, control):
+            if S is None:
+                return own
+            if control:
+                return None
+            if own is None:
+                return S
+            kwargs = {a: (getattr(own, a) if getattr(own, a) is not None else getattr(S, a)) for a in A.ATTRS}
+            return Style(color=own.color or S.color, bgcolor=own.bgcolor or S.bgcolor, link=own.link or S.link, **kwargs)
+
+        vsegs = [(text, combined(st, control), control) for text, st, control in rendered]
+        crops = (True if crop is None else bool(crop)) and not (bool(csoft) if soft is None else bool(soft))
+        ascii_only = all(tx.isascii() for tx, _, _ in vsegs)
+        texts_clean = all(A.no_esc(tx) for tx, _, _ in vsegs)
+        spec = crop_spec(vsegs, width) if crops else vsegs
+        exp = None
+        if ascii_only or not crops:
+            exp = []
+            for text, st, control in spec:
+                if control and not t:
+                    continue
+                look = A.expected_look(st, cs, nc, lw)
+                if look is None:
+                    exp = None
+                    break
+                exp.extend((ch, look) for ch in text)
+        if buf is None or isinstance(out, BaseException):
+            self.pbuf.append(err_name(out) if isinstance(out, BaseException) else "?")
+        else:
+            self.pbuf.append("ok %d#%s" % (len(buf), ";".join("%s,%s,%s" % (enc_str(tx), "1" if c else "0", "-" if st is None else A.enc_style(st)) for tx, st, c in buf)))
+        # (wide characters through the crop: no independent oracle here, `exp` is None and the `c03_expected` view is
+        #  dropped for this history; the other views still compare everything)
+        it = self._record(out, exp, texts_clean)
+        if it is None:
+            ill = any(st is not None and A.expected_look(st, cs or 3, 0, lw) is None for _, st, _ in vsegs)
+            ctx.check(ill, "print", self.describe(), f"raised {type(out).__name__}: {out} on well-formed styles")
+            return
+        if exp is not None and texts_clean:
+            ok = it.cells == exp and it.foreign == 0
+            ctx.check(ok, "print:print_means_segments", self.describe(), "interpreting the output gives %s, the printed segments say %s (output %r)" % (
+                A.enc_cells(it.cells), A.enc_cells(exp), out))
+            ctx.check(it.state() == A.PLAIN, "print:no_leak", self.describe(), "the terminal is left in state %s after print (output %r)" % (A.enc_look(it.state()), out))
+            if buf is not None and ascii_only:
+                # the buffer itself against the oracle: texts, control flags and looks of what print appended
+                def look3(st):
+                    return PLAIN_NONE if st is None or not st else A.expected_look(st, 3, 0, 0)
+
+                got = [(tx, c, look3(st)) for tx, st, c in buf if tx or c]
+                want = [(tx, c, look3(st)) for tx, st, c in spec if tx or c]
+                if all(x[2] is not None for x in want):
+                    ctx.check(got == want, "print:buffer", self.describe(), "print appended %r, the specification says %r" % (got, want))
+
     # ---------------------------------------------------------------- hand over to the model
     def describe(self):
         return "; ".join(self.readable)
@@ -451,6 +589,8 @@ class History:
             ctx.case("c03_cells", [FLAGS, ops], "~".join(self.cells), shape=self.label, sample=sample)
         if self.exp_ok:
             ctx.case("c03_expected", [FLAGS, ops], "~".join(self.expected), shape=self.label, sample=sample)
+        if self.has_print:
+            ctx.case("c03_pbuf", [FLAGS, ops], "~".join(self.pbuf[: len(self.chars)]), shape=self.label, sample=sample)
 
 
 # ==================================================================== generators
@@ -609,6 +749,19 @@ def run(ctx):
             for k, cfg in enumerate(all_cfgs()):
                 h.write(cfg, [("x", s, False)], mode=k % 4, route=(k // 4 + i) % 2)
             h.finish()
+    # ---- E1x. all 2^13 attribute sets (thorough: exhaustive; quick: a seeded sample of 384 plus the 13 + 78 + 15 of E1 / E2):
+    #      `_make_ansi_codes` through Style.render on two colour systems and through _render_buffer under NO_COLOR
+    words = range(1 << 13) if not ctx.quick else sorted(rng.sample(range(1 << 13), 384))
+    for a in words:
+        h = hist("E1x-attr-word")
+        off = rng.randrange(1 << 13) & ~a     # some of the other attributes explicitly False: they must emit nothing
+        kw = {A.ATTRS[i]: True for i in range(13) if a >> i & 1}
+        kw.update({A.ATTRS[i]: False for i in range(13) if off >> i & 1})
+        s = h.new(Style(**kw), "Style(word=%d, off=%d)" % (a, off))
+        h.style_render(s, "x", 3, 0)
+        h.style_render(s, "y", 1, 1)
+        h.write((2, 1, 1, 0), [("z", s, False)], mode=0)
+        h.finish()
     # ---- E2. every pair of attributes on; all on; all but one; all off
     for i, j in itertools.combinations(range(13), 2):
         h = hist("E2-attr-pairs")
@@ -730,6 +883,7 @@ def run(ctx):
     _crop_histories(ctx, consoles)
     # ---- N. styled segments with embedded / trailing line feeds through console.print (independent crop spec)
     _newline_histories(ctx, consoles)
+    _print_histories(ctx, consoles)
     # ---- E6. through the public API only: Style.parse (lru_cache shared by every console) + console.print(Text)
     _public_api_histories(ctx, consoles)
     # ---- E7. the error branches: ill-formed Color objects
@@ -1088,6 +1242,101 @@ def _newline_histories(ctx, consoles):
     ctx.flush()
 
 
+def _print_histories(ctx, consoles):
+    """`console.print` as a modelled operation (`P@`, Model/AnsiPrint.lean): real renderables — raw segments, `str`,
+    `Text` with a whole-text style, spans, `end` — printed with and without `style=`, crop on / off, `soft_wrap` on the
+    call and on the console, on wide and narrow consoles of every configuration, interleaved with `_render_buffer` /
+    `Style.render` on the same shared objects (the caches are state)."""
+    from rich.console import Console
+    from rich.segment import Segment
+    from rich.style import Style
+    from rich.text import Text
+
+    rng = ctx.rng
+    cons = {}
+
+    def console(cfg, width, csoft):
+        key = (cfg, width, csoft)
+        c = cons.get(key)
+        if c is None:
+            cs, nc, t, lw = cfg
+            c = cons[key] = Console(file=io.StringIO(), force_terminal=bool(t), color_system=CS_NAMES[cs], no_color=bool(nc),
+                                    legacy_windows=bool(lw), width=width, soft_wrap=bool(csoft), _environ={}, markup=False, emoji=False,
+                                    highlight=False)
+        c.file = io.StringIO()
+        return c
+
+    def mk_styles():
+        return [Style(bold=True, color="red"), Style(color="#ff8800", bgcolor="color(100)", link="http://p"), Style(bgcolor="blue", underline=True, bold=False),
+                Style(italic=True, link="x"), Style(), Style.null(), Style(dim=True), Style(color="color(9)", strike=True, overline=True)]
+
+    raw_texts = ["ab", "ab\ncd", "x\n", "\n", "a long line of thirty characters\nshort", "0123456789", "あい", "wide あいう end", "", " ", "tail\n\n"]
+
+    def renderable(h, usable, kind):
+        """(renderable, description); Style objects inside it come from the shared handles `usable`"""
+        pick = lambda: h.objs[rng.choice(usable)]
+        if kind == 0:    # raw segments, control segments included
+            segs = []
+            for _ in range(rng.randint(1, 4)):
+                control = rng.random() < 0.15
+                tx = rng.choice(["\r", "ctl"]) if control else rng.choice(raw_texts)
+                segs.append(Segment(tx, pick() if rng.random() < 0.7 else None, control))
+            return SegsRenderable(segs), "segments(%r)" % [sg.text for sg in segs]
+        if kind == 1:    # a plain string
+            tx = rng.choice(["hello", "two words", "a rather long sentence that has to wrap somewhere", "x\ny", ""])
+            return tx, "str(%r)" % tx
+        if kind == 2:    # Text with a whole-text Style object and an `end`
+            tx = rng.choice(["hello", "two words here", "line\nbreak", "0123456789abcdef"])
+            end = rng.choice(["\n", "", "!\n"])
+            return Text(tx, style=pick(), end=end), "Text(%r, style, end=%r)" % (tx, end)
+        tx = rng.choice(["hello world", "spans over several words", "ab"])   # Text with spans of shared Style objects
+        txt = Text(tx, style=pick() if rng.random() < 0.5 else "", end=rng.choice(["\n", ""]))
+        for _ in range(rng.randint(1, 3)):
+            a = rng.randrange(len(tx))
+            txt.stylize(pick(), a, rng.randint(a, len(tx)))
+        return txt, "Text(%r, %d spans)" % (tx, len(txt.spans))
+
+    def one_history(label, cfgs, widths, n_calls):
+        h = History(ctx, consoles, label)
+        usable = [h.new(st) for st in rng.sample(mk_styles(), rng.randint(2, 5))]
+        if rng.random() < 0.3:
+            usable.append(h.new(rand_style(rng)[0]))
+        for _ in range(n_calls):
+            cfg = rng.choice(cfgs)
+            r = rng.random()
+            if r < 0.15:
+                h.write(cfg, [(rng.choice(["x", "ab"]), rng.choice(usable), False)], 0)
+                continue
+            if r < 0.25:
+                h.style_render(rng.choice(usable), "q", rng.randrange(5), 0)
+                continue
+            width = rng.choice(widths)
+            csoft = int(rng.random() < 0.15)
+            rd, what = renderable(h, usable, rng.randrange(4))
+            h.print_call(console(cfg, width, csoft), cfg, width, csoft, rd, rng.choice(usable) if rng.random() < 0.6 else None,
+                         rng.choice([None, None, 0, 1]), rng.choice([None, None, None, 0, 1]), what)
+        h.finish()
+
+    # bounded-exhaustive: every style= kind x every own-style kind x control x crop route x 5 colour systems
+    kinds = mk_styles()
+    for si in range(len(kinds) + 1):
+        for oi in range(len(kinds) + 1):
+            for cs in range(5):
+                h = History(ctx, consoles, "P-print-exh")
+                objs = [h.new(st) for st in mk_styles()]
+                cfg = (cs, (si + oi) % 2 if cs else 0, 0 if (si + 2 * oi + cs) % 5 == 0 else 1, (si + oi + cs) % 3 == 0)
+                cfg = (cfg[0], cfg[1], cfg[2], int(cfg[3]))
+                own = None if oi == len(kinds) else h.objs[objs[oi]]
+                segs = [Segment("ab\ncd", own), Segment("\r", own, True), Segment("e", own)]
+                for crop, soft, width in ((None, None, WIDTH), (None, None, 3), (0, None, 3), (None, 1, 3)):
+                    h.print_call(console(cfg, width, 0), cfg, width, 0, SegsRenderable(segs), None if si == len(kinds) else objs[si], crop, soft, "segments(own=%s)" % oi)
+                h.finish()
+    cfgs = all_cfgs()
+    for _ in range(250 if ctx.quick else 20000):
+        one_history("P-print-random", cfgs, [3, 5, 8, 20, WIDTH], rng.randint(2, 6))
+    ctx.flush()
+
+
 def _tokenizer_cross_check(ctx):
     """The Lean tokenizer (`AnsiTerm.tokenize`, about which `tokenize_reads_back` is proved) against the independent
     term.py tokenizer on synthetic streams: SGR with empty / zero-padded / many parameters, OSC 8 terminated by ST or
@@ -1119,6 +1368,20 @@ def _tokenizer_cross_check(ctx):
             else:
                 parts.append(osc(rng))
         go("".join(parts), "W-random")
+    # texts with a harmless ESC (`SafeText` of Lemmas/AnsiSafe.lean: every ESC followed, inside the text, by something other
+    # than `[` / `]`): the expected reading is known by construction (`tokenize_reads_back_safe`); and texts that embed a
+    # whole sequence: it is executed in place (`embedded_sequences_are_executed`)
+    tails = ["c", "7", "\x1b(", "M", " ", "m", "0", "\\", "é"]
+    for k in range(300 if ctx.quick else 5000):
+        t = "".join(rng.choice(["a", "1;", "\x1b" + rng.choice(tails), "[", "]8;;", "m"]) for _ in range(rng.randint(1, 6)))
+        if t.endswith("\x1b"):
+            t += "c"
+        ps = tuple(rng.choice([(0,), (1, 31), (38, 5, 9), (53,)]))
+        sx = "\x1b[%sm%s\x1b[0m" % (";".join(map(str, ps)), t)
+        ctx.case("c03_tokenize", [enc_str(sx)], A.enc_tokens([("G", ps), ("T", t), ("G", (0,))]), shape="W-safe-esc", sample="tokenize(%r)" % sx)
+        inner = "\x1b[%sm" % ";".join(map(str, ps))
+        sx2 = "ab" + inner + "cd"      # one text "ab<ESC>[..mcd" on the wire
+        ctx.case("c03_tokenize", [enc_str(sx2)], A.enc_tokens([("T", "ab"), ("G", ps), ("T", "cd")]), shape="W-embedded", sample="tokenize(%r)" % sx2)
     ctx.flush()
 
 
@@ -1285,12 +1548,34 @@ MANIFEST = {
     "between writes; styles shared through the Style.parse cache, through themes, and through +/copy/update_link/without_color chains on "
     "already-rendered objects) and on the model, compared in five views (characters, tokens, interpreter run, specification, Lean tokenizer "
     "on the real characters vs term.py), plus the theorems' executable statements evaluated on rich's own output with a second, table-driven "
-    "Python interpreter and an oracle that computes the down-conversion from the raw palettes.",
+    "Python interpreter and an oracle that computes the down-conversion from the raw palettes. "
+    "Deepening round 4 (45 theorems now): console.print is a modelled operation (Model/AnsiPrint.lean): from the segments Console.render "
+    "yields for the renderables (input) through Segment.apply_style with Style.__add__ on the shared objects (same object back for a None / "
+    "null operand, a new object with an empty cache otherwise), the soft_wrap / crop resolution, Segment.split_and_crop_lines at the console "
+    "width with rich's own cell-width table, _buffer, _render_buffer, the write. print_means_segments: for every configuration, width, "
+    "cell-width function and call, nothing raises, the appended segments carry as values `style + own style`, and the terminal model shows "
+    "exactly expectedCells of what was appended, ends in its default state, caches stay sound; print_crop_adds_no_esc; "
+    "print_means_segments_chars_partial (characters; only without style=); print_step_sound. ESC inside text: tokenize_reads_back_safe "
+    "weakens `no ESC` to SafeText (every ESC followed inside the text by something other than [ and ]); embedded_sequences_are_executed "
+    "says what the terminal model shows when a text does contain sequences; esc_in_text_breaks_chars_statement and "
+    "trailing_esc_joins_next_segment are decide-witnesses that neither hypothesis can be dropped. Tables: ansi_codes_table "
+    "(Color.get_ansi_codes for every ColorType x fg/bg incl. the assertion branches), attr_codes_table / style_map_rows "
+    "(_make_ansi_codes against Style._style_map for every attribute word). New tie: op `P@` in all views plus c03_pbuf (the segments print "
+    "appended to _buffer, styles by value) on real renderables (raw segments incl. control / embedded line feeds / wide characters, str, "
+    "Text with style, spans, end) x style= x crop x soft_wrap (call and console) x widths 3..400 x 40 configurations, interleaved with "
+    "_render_buffer / Style.render on the same objects: 405 exhaustive-block + 250 random histories quick (20,000 thorough), ~2,300 direct "
+    "evaluations of print_means_segments / no_leak / buffer with an oracle that knows neither Style.__add__ nor split_and_crop_lines; "
+    "E1x: all 2^13 attribute words in the thorough tier (384 sampled in quick) through Style.render x 2 colour systems and NO_COLOR "
+    "_render_buffer; W-safe-esc / W-embedded 600 tokenizer cases (5,000 each thorough).",
     "note": "Hypotheses of the character-level theorems: no ESC in segment texts, no ESC / BEL in links (NoEscIn / OpsClean) — control "
     "segments that carry escape sequences are covered at token level and by the correspondence only. Assumed / parameters: C18's colour "
     "model incl. its float parameter satExc; Style.__hash__ agrees with __eq__ (C06) so the dict in remove_color is lookup by ==; the random "
     "link id is masked; legacy_windows only as the flag the code branches on; jupyter and real Windows consoles are outside the model; the "
-    "crop path of console.print is tied with Segment.split_and_crop_lines (C13) as its specification. A disagreement in bytes that a terminal "
+    "crop path of console.print is modelled with C13's splitAndCropLines (proved properties of the crop itself are C13's); what "
+    "Console.render yields for a renderable (Text.render, wrapping, Style.combine for spans) is INPUT to the print model, observed on the "
+    "real call by a pass-through wrapper — C05 / C02 / C15 own that part; the character-level print theorem is partial (no style=); "
+    "histories with prints have a step theorem (print_step_sound), not a cache-free history specification; the direct-evaluation oracle "
+    "for the crop is ASCII-only (wide characters through the crop are compared with the model only). A disagreement in bytes that a terminal "
     "shows identically is reported as no-failing-input-found with the note 'meaning preserved, bytes differ'. Code variant flags (values "
     "match /repo now; 1 = rich 9.10.0 as found): ANSI_CACHE_UNKEYED = 0 (fix c9ec5a8), STYLED_CONTROL_KEPT = 0 (fix 23674a1), "
     "STD_VIA_PALETTE = 0 (C18's flag, fix 2cec9e1). No known finding is open for C03: both defects found are fixed, the check prints no "
